@@ -5,6 +5,7 @@ import re
 from ..core import AnalysisError
 from .shared_py import inn
 from ..pyfront import unparse
+from ..pyfront import ws  # noqa: E402,F401
 from . import shared_py as P
 
 
@@ -62,7 +63,7 @@ def python_generator_mapping(ctx, L):
     """_form_struct_member maps every model member class to the descriptor the runtime classifies the same way."""
     m = ctx.py.mod('prophyc.generators.python')
     f = m.func('_form_struct_member')
-    src = re.sub(r"\bu(['\"])", r'\1', re.sub(r'\s+', ' ', unparse(f.node)))
+    src = re.sub(r"\bu(['\"])", r'\1', ws(unparse(f.node)))
     pieces = [
         ("prefixed_type = primitive_types.get(member.type_name, member.type_name)", 'builtins are prefixed with the library name'),
         ("if member.optional: prefixed_type = u'%s.optional(%s)' % (libname, prefixed_type)".replace("u'", "'"),
@@ -86,7 +87,7 @@ def python_generator_mapping(ctx, L):
         L.check({'size', 'bound'} <= pops, 'F17.python-kwargs', q, g.site(),
                 'the runtime must accept the size= / bound= keywords the generator emits', str(sorted(pops)))
     prim = m.assign_value('primitive_types')
-    L.check(re.sub(r"\bu(['\"])", r'\1', re.sub(r'\s+', ' ', unparse(prim))) == "{x + y: '%s.%s' % (libname, x + y) for x in 'uir' for y in ['8', '16', '32', '64']}",
+    L.check(re.sub(r"\bu(['\"])", r'\1', ws(unparse(prim))) == "{x + y: '%s.%s' % (libname, x + y) for x in 'uir' for y in ['8', '16', '32', '64']}",
             'F4.scalar-table', 'python.primitive_types', m.rel, 'python primitive type map covers u/i/r x 8..64', unparse(prim))
     # emitted library names exist in prophy.__all__
     init = ctx.py.mod('prophy')
